@@ -314,10 +314,15 @@ string read_all(int fd) {
       throw io_error(fd);
     }
 
+    // A short read does not mean EOF (pipes, sockets and ttys deliver whatever
+    // is available); only a zero-length read does
     total_size += bytes_read;
     if (bytes_read < read_size) {
       buffers.back().resize(bytes_read);
-      break;
+      buffers.back().shrink_to_fit();
+      if (bytes_read == 0) {
+        break;
+      }
     }
   }
 
